@@ -1860,6 +1860,13 @@ class Connection(utils.CompositeEventEmitter):
         self.cs_configs = {}
         self.cs_procedures = {}
 
+        # Remember that the disconnection has happened, for those who ask too late
+        self.disconnected = False
+        self.once(self.EVENT_DISCONNECTION, self._on_disconnected)
+
+    def _on_disconnected(self, _reason) -> None:
+        self.disconnected = True
+
     @property
     def role_name(self):
         if self.role is None:
@@ -2100,7 +2107,11 @@ class Connection(utils.CompositeEventEmitter):
         """
         Helper method to call `utils.cancel_on_event` for the 'disconnection' event
         """
-        return utils.cancel_on_event(self, self.EVENT_DISCONNECTION, awaitable)
+        future = utils.cancel_on_event(self, self.EVENT_DISCONNECTION, awaitable)
+        if self.disconnected and not future.done():
+            # Too late to be notified: the connection is already gone
+            future.cancel()
+        return future
 
     async def __aenter__(self):
         return self
